@@ -1,6 +1,17 @@
 (** C04 — pattern search finds the same first / last occurrence as std.
-    Statements only; every proof is [exact <lemma>]. *)
-From KV Require Import Base.Prelude Model.Search Spec.Search Proofs.SearchProofs.
+    Statements only; every proof is [exact <lemma>].
+
+    Pattern kinds: a [&str] / [&[u8]] pattern is its bytes (the needle [n] below); a [char]
+    pattern is searched as the bytes [encode_m c] that konst's [encode_utf8] writes, and
+    [C04_char_pattern] / [C04_char_pattern_rfind] show that this is the search for the UTF-8
+    encoding [Spec.Utf8.encode c] of the char (by C07's [encode_eq_std]), a non-empty needle,
+    so all the theorems with hypothesis [n <> []] apply to it.
+
+    NOT YET PROVED: nothing for the byte-level search; for char patterns the derived
+    operations (find_skip/keep, split_once, ..) are not restated per kind - they follow from
+    the generic theorems with [n := encode_m c] and [C04_char_pattern]'s last conjunct. *)
+From KV Require Import Base.Prelude Model.Utf8 Model.Search Spec.Search Proofs.SearchProofs
+  Proofs.SearchCharProofs.
 Local Open Scope nat_scope.
 
 (** forward search reports the LOWEST offset at which the needle occurs ... *)
@@ -64,6 +75,25 @@ Proof. exact split_once_m_none. Qed.
 Theorem C04_rsplit_once_absent : forall h n, n <> [] -> (rsplit_once_m h n = None <-> no_occ h n).
 Proof. exact rsplit_once_m_none. Qed.
 
+(** char patterns: searching for a char is searching for its UTF-8 encoding, for every
+    Unicode scalar value (= every Rust [char]) *)
+Theorem C04_char_pattern : forall c, is_scalar c -> forall h,
+  (forall z, find_m h (encode_m c) = Some z <->
+             exists i, z = Z.of_nat i /\ first_occ h (KV.Spec.Utf8.encode c) i) /\
+  (find_m h (encode_m c) = None <-> no_occ h (KV.Spec.Utf8.encode c)) /\
+  encode_m c <> [].
+Proof. exact char_pattern_find. Qed.
+Theorem C04_char_pattern_rfind : forall c, is_scalar c -> forall h,
+  (forall z, rfind_m h (encode_m c) = Some z <->
+             exists i, z = Z.of_nat i /\ last_occ h (KV.Spec.Utf8.encode c) i) /\
+  (rfind_m h (encode_m c) = None <-> no_occ h (KV.Spec.Utf8.encode c)).
+Proof. exact char_pattern_rfind. Qed.
+(** the hypothesis is satisfiable and the statement computes ('e'-acute in "a" ++ that) *)
+Theorem C04_char_pattern_example :
+  (is_scalar 233 /\ find_m [97; 195; 169] (encode_m 233) = Some 1 /\
+   KV.Spec.Utf8.encode 233 = [195; 169])%Z.
+Proof. exact char_pattern_example. Qed.
+
 (** regression witness of finding F1 (the matcher used before the repair) *)
 Theorem C04_heuristic_refuted :
   exists h n, heuristic_find h n = None /\ find_m h n = Some 1%Z /\ occ h n 1.
@@ -89,4 +119,7 @@ Print Assumptions C04_split_once.
 Print Assumptions C04_rsplit_once.
 Print Assumptions C04_split_once_absent.
 Print Assumptions C04_rsplit_once_absent.
+Print Assumptions C04_char_pattern.
+Print Assumptions C04_char_pattern_rfind.
+Print Assumptions C04_char_pattern_example.
 Print Assumptions C04_heuristic_refuted.
